@@ -191,12 +191,30 @@ func decoderOp(name, valid string, dec func([]byte) []byte) op {
 	return op{name: "decode/" + name,
 		prepare: func(t *rapid.T) any {
 			b := theFixtures().valid[valid]
-			switch gen.Uniform(t, 4, "mutate") {
+			switch gen.Uniform(t, 7, "mutate") {
 			case 0:
 				b, _ = gen.Mutate(t, b, nil, []int{0, 1, 2, 3})
 			case 1:
 				// a few bytes short: a decoder that trusts an announced length reads them from whatever lies behind the argument
 				b = b[:len(b)-gen.UniformRange(t, 1, 4, "tailcut")]
+			case 2, 3:
+				// same framing, other VALUES: a span of the valid message is replaced by random bytes, or gets all its top bits /
+				// all its bits set (values a decoder may want to "normalise" - which it must not do in the caller's buffer)
+				b = append([]byte{}, b...)
+				lo := gen.Uniform(t, len(b), "spanLo")
+				hi := lo + 1 + gen.Uniform(t, len(b)-lo, "spanLen")
+				fill := gen.Uniform(t, 3, "spanFill")
+				rnd := gen.Bytes(t, hi-lo, hi-lo, "spanBytes")
+				for i := lo; i < hi; i++ {
+					switch fill {
+					case 0:
+						b[i] = rnd[i-lo]
+					case 1:
+						b[i] |= 0x80
+					case 2:
+						b[i] = 0xff
+					}
+				}
 			}
 			return bytesIn{name, b}
 		},
@@ -502,8 +520,18 @@ func ops() []op {
 				return nil, err
 			}
 			att := type3.NewRateLimitedAttester(&memCache{m: map[string]*type3.ClientState{}})
+			// in half the cases the request has been encoded BEFORE the attester sees the request object (a client that sends
+			// first and attests second): the encoding handed out then is the caller's and must keep its value
+			var encBefore, encBeforeCopy []byte
+			if a[4][0]&1 == 1 {
+				encBefore = st.Request().Marshal()
+				encBeforeCopy = append([]byte{}, encBefore...)
+			}
 			if err := att.VerifyRequest(*st.Request(), p.put("blindKeyEnc2", a[2]), p.put("clientKeyEnc", st.ClientKey()), p.put("anonymousOrigin", a[4])); err != nil {
 				return nil, err
+			}
+			if encBefore != nil && (!bytes.Equal(encBefore, encBeforeCopy) || !bytes.Equal(st.Request().Marshal(), encBeforeCopy)) {
+				return nil, fmt.Errorf("VerifyRequest changed the request's encoding: the bytes returned by Request().Marshal() before the call were %x, the same slice now holds %x, Marshal() now returns %x", encBeforeCopy, encBefore, st.Request().Marshal())
 			}
 			resp, brk, err := f.iss3.Evaluate(p.put("encodedRequest", st.Request().Marshal()))
 			if err != nil {
